@@ -419,6 +419,11 @@ pub struct C12Case {
     /// never what it sends)
     #[serde(default)]
     pub client_max: Option<u32>,
+    /// instead of the single request: a whole history on a connection with a small Maximum
+    /// Packet Size (requests of 10-40 bytes, some refused, some not) and a small Receive
+    /// Maximum, judged by the reference session model
+    #[serde(default)]
+    pub history: Option<crate::sim::Scenario>,
 }
 
 pub struct C12;
@@ -482,14 +487,30 @@ impl Property for C12 {
                 1 => Just(MChoice::Absent),
             ],
         )
-            .prop_map(|(op, m)| C12Case { op, m, client_max: None })
+            .prop_map(|(op, m)| C12Case { op, m, client_max: None, history: None })
             .boxed();
-        (s, prop_oneof![2 => Just(None), 1 => (8u32..64).prop_map(Some), 1 => Just(Some(1u32))])
+        let single = (s, prop_oneof![2 => Just(None), 1 => (8u32..64).prop_map(Some), 1 => Just(Some(1u32))])
             .prop_map(|(mut c, cm)| {
                 c.client_max = cm;
                 c
             })
-            .boxed()
+            .boxed();
+        // histories: requests of every kind (multi-filter subscribes / unsubscribes are the long
+        // ones), acknowledgements, cancellations; M between 12 and 44, R small
+        use super::simprops::{ack, deco, rm_small, start};
+        use crate::sim::{Ev, OpKind, Scenario};
+        let ev = prop_oneof![
+            8 => start(vec![(1, OpKind::Pub0), (2, OpKind::Pub1), (2, OpKind::Pub2), (4, OpKind::Sub(0)), (3, OpKind::Unsub(0)), (1, OpKind::Ping)]),
+            5 => ack(deco()),
+        ];
+        let hist = (rm_small(), 12u32..44, proptest::collection::vec(ev, 1..40), prop_oneof![3 => Just(0u32), 1 => 250u32..300])
+            .prop_map(|(receive_max, m, events, id_offset): (Option<u16>, u32, Vec<Ev>, u32)| C12Case {
+                op: OpSpec::Ping,
+                m: MChoice::Absent,
+                client_max: None,
+                history: Some(Scenario { receive_max, max_packet_size: Some(m), id_offset, events }),
+            });
+        prop_oneof![3 => single, 1 => hist].boxed()
     }
 
     fn cases(tier: Tier) -> u32 {
@@ -505,6 +526,15 @@ impl Property for C12 {
 
     fn run(case: &C12Case) -> Outcome {
         let mut o = Outcome::ok();
+        if let Some(h) = &case.history {
+            let out = crate::sim::run(h, &crate::sim::SimCfg::default());
+            o.class("history-under-small-maximum-packet-size");
+            o.nontrivial = out.stats.refused_for_size >= 1 && out.stats.completions > out.stats.refused_for_size;
+            // refusals must leave nothing behind: the quota verdicts and completions of the
+            // rest of the history are part of the claim
+            o.fail = super::simprops::failure_for(&out, &["C12/", "C10/", "C05/not-completed", "C05/completed-without-own-ack"]);
+            return o;
+        }
         let plan = WritePlan::default();
         // (1) measure L
         let mut a = match c12_world(None, None) {
